@@ -1,0 +1,86 @@
+//go:build verif
+
+package scalar
+
+// Machine-checked contracts for the scalar comparison helpers of this package
+// (verification hook, build tag verif; this file contains comments only).
+// The contract language and the checker are described in /verif/CONTRACTS.md.
+//
+// All clauses are decided with IEEE comparisons (floats: ieee); the arithmetic
+// itself (+ - * /) is uninterpreted, "option nan-axioms" adds the IEEE rules for
+// when it produces NaN, which is what "a NaN is never equal to anything" needs.
+//
+// Not covered:
+//   - ParseWithNA: OUTSIDE-SUBSET "call to strconv.ParseFloat: no contract and no body".
+//   - NaNWith: math.Float64frombits is an uninterpreted function and `|`, `&^`
+//     are uninterpreted bit operations, so nothing about the result can be said
+//     (a block for it has 0 obligations); for the same reason NaNPayload has only
+//     the "not a quiet NaN ==> 0, false" shape and EqualWithinULP only the
+//     equal / NaN cases (the ULP distance is a statement about the bit patterns).
+//   - EqualWithinRel, general branch abs(a-b)/max(abs(a),abs(b)) <= tol: math.Max
+//     cannot be named in a clause (OUTSIDE-SUBSET "spec: call math.Max(abs(a), abs(b))")
+//     and is an uninterpreted function in the code model.
+//   - Round / RoundEven beyond x == 0: math.Trunc, math.Pow10, math.Round and
+//     math.RoundToEven are uninterpreted and cannot be named in clauses
+//     (OUTSIDE-SUBSET "spec: call math.Trunc(x)"), so Round(NaN) = NaN,
+//     Round(±Inf) = ±Inf and the integer fast path are not provable.
+
+// Same: true iff equal or both NaN.
+//@ func Same props: C08 C07(safety)
+//@ floats: ieee
+//@ writes nothing
+//@ ensures result == (a == b || (isNaN(a) && isNaN(b)))
+
+// EqualWithinAbs: a == b (covers equal infinities) or |a-b| <= tol; a NaN among
+// a, b, tol leaves only the a == b case, a NaN among a, b is never equal.
+//@ func EqualWithinAbs props: C08 C07(safety)
+//@ floats: ieee
+//@ option nan-axioms
+//@ writes nothing
+//@ ensures result == (a == b || abs(a-b) <= tol)
+//@ ensures isNaN(a) || isNaN(b) || isNaN(tol) ==> (result == (a == b))
+//@ ensures isNaN(a) || isNaN(b) ==> !result
+
+// EqualWithinRel: equal values are equal; a difference of at most the smallest
+// normal number is compared with tol*minNormalFloat64 instead of being divided;
+// NaN as for EqualWithinAbs.
+//@ func EqualWithinRel props: C08 C07(safety)
+//@ floats: ieee
+//@ option nan-axioms
+//@ writes nothing
+//@ ensures a == b ==> result
+//@ ensures a != b && abs(a-b) <= minNormalFloat64 ==> result == (abs(a-b) <= tol*minNormalFloat64)
+//@ ensures isNaN(a) || isNaN(b) || isNaN(tol) ==> (result == (a == b))
+
+// EqualWithinAbsOrRel: the disjunction of the two (proved from the two callees'
+// contracts, not from their bodies).
+//@ func EqualWithinAbsOrRel props: C08 C07(safety)
+//@ floats: ieee
+//@ option nan-axioms
+//@ writes nothing
+//@ ensures a == b ==> result
+//@ ensures abs(a-b) <= absTol ==> result
+//@ ensures a != b && abs(a-b) <= minNormalFloat64 ==> result == (abs(a-b) <= absTol || abs(a-b) <= relTol*minNormalFloat64)
+//@ ensures isNaN(a) || isNaN(b) ==> !result
+
+// Round(±0) = +0, RoundEven(±0) = +0 (same: bit-for-bit, i.e. the positive zero).
+//@ func Round RoundEven props: C08 C07(safety)
+//@ floats: ieee
+//@ writes nothing
+//@ ensures x == 0 ==> same(result, float64(0))
+
+// ulpDiff: |a-b| on uint64 without wrap-around.
+//@ func ulpDiff props: C08 C07(safety)
+//@ writes nothing
+//@ ensures a >= b ==> result == a - b
+//@ ensures a <= b ==> result == b - a
+
+//@ func EqualWithinULP props: C08 C07(safety)
+//@ floats: ieee
+//@ writes nothing
+//@ ensures a == b ==> result
+//@ ensures isNaN(a) || isNaN(b) ==> !result
+
+//@ func NaNPayload props: C08 C07(safety)
+//@ writes nothing
+//@ ensures !ok ==> payload == 0
